@@ -6,6 +6,9 @@ sys.path.insert(0, HERE)
 from contracts import index
 from tools import manifest_meta as M
 
+BOUNDED_NOTE = (" BOUNDED stand-in (not proof): bounded/universe.py evaluates the property statement end to end on 60 (quick) / 600 (thorough) "
+                "seeded small projects (1 h slots, 1-2 resources, 2-4 tasks, one container, limits, leaves, gaps); a failure there is a "
+                "VIOLATION with the project text as replay; open known findings are re-confirmed by their witness inputs (witnesses/run.py).")
 props = [json.loads(l) for l in open(os.path.join(HERE, "properties.jsonl"))]
 checks = []
 na = []
@@ -22,8 +25,8 @@ for p in props:
             "replay_cmd_template": "python3-vt check.py " + pid + " --tier quick   # rewrites {path} from the current tree; the replay file carries the failing input and the native re-run",
             "engine": "pyvc",
             "level_claimed": {"category": meta["level"], "text": t["level_text"], "design_ref": t.get("design_ref", "DESIGN.md section 4")},
-            "level_note": t["level_note"],
-            "technique": t["technique"],
+            "level_note": t["level_note"] + (BOUNDED_NOTE if any(b["script"] == "universe.py" for b in meta.get("bounded", [])) else ""),
+            "technique": t["technique"] + ("; bounded stand-in: the property statement evaluated on the real parser+scheduler over an enumerated universe of small projects (labelled bounded)" if any(b["script"] == "universe.py" for b in meta.get("bounded", [])) else ""),
         })
     else:
         na.append({"property_id": pid, "reason": M.NOT_APPLICABLE.get(pid, "no check built yet for this property (see DESIGN.md, status table)")})
